@@ -265,27 +265,8 @@ func TestVerif_C17_cluster(t *testing.T) {
 			os.Stderr = f
 		}
 	}
-	all := c17Cases()
-	var cases []c17Case
-	if r.Thorough() {
-		cases = all
-	} else {
-		// quick: every (first, second) pair as a multi-statement text with ONE of the four
-		// separators (rotating, so that every separator meets every first and every second)
-		k := 0
-		for _, c := range all {
-			if c.shape == "multi-statement-text" {
-				k++
-				fi, si := (k-1)/(4*len(c17Seconds)), ((k-1)/4)%len(c17Seconds)
-				if (k-1)%4 != (fi+si)%4 {
-					continue
-				}
-			}
-			cases = append(cases, c)
-		}
-	}
-	r.Rule(fmt.Sprintf("every request of the single-node part's menu (%d of its %d requests%s: read-only firsts, modifying seconds, multi-statement texts first+sep+second, two-statement requests) x level {NONE, WEAK, STRONG, LINEARIZABLE, AUTO} x endpoint {Store.Query, Store.Request} x node addressed {leader, voting follower, non-voter} on live 3-node clusters of real Stores; every node's digest (schema, rows, user_version) and applied index taken before and after each request with replication at rest. distinct = (node addressed, endpoint, level, shape, kind of second, answer, nodes changed, nodes changed behind the log, whether the log index advanced)",
-		len(cases), len(all), map[bool]string{true: "", false: "; quick tier: one of the four separators per (first, second) pair, rotating"}[r.Thorough()]))
+	cases := c17Cases()
+	r.Rule(fmt.Sprintf("every request of the single-node part's menu (all %d: read-only firsts, modifying seconds, multi-statement texts first+sep+second with 4 separators, two-statement requests) x level {NONE, WEAK, STRONG, LINEARIZABLE, AUTO} x endpoint {Store.Query, Store.Request} x node addressed {leader, voting follower, non-voter} on live 3-node clusters of real Stores (both tiers alike); every node's digest (schema, rows, user_version) and applied index taken before and after each request with replication at rest. distinct = (node addressed, endpoint, level, shape, kind of second, answer, nodes changed, nodes changed behind the log, whether the log index advanced)", len(cases)))
 	r.Assume("TEMP tables and ATTACH are left out, as in the single-node part; no snapshot is installed and no boot or load happens during the run, so the applied index of a node moves only by the FSM applying a command entry")
 	r.Assume("no forwarding: a request is handed to the addressed node's Store; 'not leader' is an answer")
 	r.Note("cluster part: the interleavings inside raft are uncontrolled, but every observation is taken with replication at rest (all logs equal, all applied indexes equal), so the verdicts do not depend on them")
@@ -312,7 +293,7 @@ func TestVerif_C17_cluster(t *testing.T) {
 			}
 		}
 		cs := c17Case{shape: "replay", stmts: x.Statements}
-		for _, c := range all {
+		for _, c := range cases {
 			if strings.Join(c.stmts, "\x00") == strings.Join(x.Statements, "\x00") {
 				cs = c
 			}
@@ -343,7 +324,7 @@ func TestVerif_C17_cluster(t *testing.T) {
 			if err != nil {
 				panic(fmt.Sprintf("harness: cluster: %v", err))
 			}
-			defer c.Close()
+			defer vxClose(c)
 			w := &c17cWorker{t: t, r: r, c: c}
 			w.reset()
 			w.base = w.cur[0].digest
